@@ -107,11 +107,15 @@ func (c *Collection) subdocWrite(key string, subdocKey string, cas CAS, value an
 
 		// Write full doc back to collection
 		verifPoint("subdoc.window", c.bucket.name, key, casOut)
-		casOut, err = c.WriteCas(key, 0, casOut, fullDoc, 0)
+		readCas := casOut
+		casOut, err = c.WriteCas(key, 0, readCas, fullDoc, 0)
 
 		if err != nil {
 			if _, ok := err.(sgbucket.CasMismatchErr); ok && cas == 0 {
 				continue // Doc has been updated but we're not matching CAS, so retry...
+			}
+			if errors.As(err, &missingError) && cas == 0 && readCas != 0 {
+				continue // Doc has been deleted since it was read: a lost race as well, so retry
 			}
 			return 0, err
 		}
